@@ -2,6 +2,8 @@
 
 from __future__ import annotations
 
+import functools
+
 import re
 
 from hypothesis import strategies as st
@@ -80,6 +82,18 @@ class ShoutingNode(Node):
     @property
     def name(self):
         return f"{self.data}".upper() + "!"
+
+
+def _name_in(nameset, n):
+    return f"{n.data}" in nameset
+
+
+class _NameIn:
+    def __init__(self, nameset):
+        self.nameset = nameset
+
+    def __call__(self, n):
+        return f"{n.data}" in self.nameset
 
 
 class _Key(int):
@@ -198,9 +212,15 @@ def check_queries(tree, rec, idf=hash, rebuild=None, nt=True):
             elif not add_self:
                 expect_is("node.find_first(match=pattern)", call(start.find_first, match=arg), exp[0] if exp else None, d)
                 expect_is("node.find(match=pattern)", call(start.find, match=arg), exp[0] if exp else None, d)
-        for names in PREDS:
+        for pi, names in enumerate(PREDS):
             nameset = set(names)
-            pred = lambda n: f"{n.data}" in nameset  # noqa: E731
+            # "a callback": any callable - a lambda, a functools.partial object, an instance with __call__
+            if (pi + len(pre)) % 3 == 1:
+                pred = functools.partial(_name_in, nameset)
+            elif (pi + len(pre)) % 3 == 2:
+                pred = _NameIn(nameset)
+            else:
+                pred = lambda n: f"{n.data}" in nameset  # noqa: E731
             exp = [n for n in branch if f"{n.data}" in nameset]
             d = [sname, nm(start), add_self, "pred", names]
             for k in LIMITS:
@@ -309,6 +329,15 @@ def check_queries(tree, rec, idf=hash, rebuild=None, nt=True):
         if r[0] != "exc" or not isinstance(r[1], ValueError):
             rec.fail("tree[node]:expected-ValueError", [nm(r[1]) if r[0] == "ok" else repr(r[1])])
         assert isinstance(pre[0], Node)
+        if rebuild is not None:
+            # a node of ANOTHER tree (here: of a second tree holding the same data) is a node key just the same
+            other = rebuild()
+            foreign = next(iter(other), None)
+            if foreign is not None:
+                r = call(tree.__getitem__, foreign)
+                ev += 1
+                if r[0] != "exc" or not isinstance(r[1], ValueError):
+                    rec.fail("tree[node of another tree]:expected-ValueError", [nm(r[1]) if r[0] == "ok" else repr(r[1])])
 
     # ---- 4. del tree[key] (on fresh trees) ------------------------------------------------------
     if not rec.failed and rebuild is not None:
